@@ -54,6 +54,7 @@ def walkEdges (rec : String → WalkRes) (name : String) : List Edge → Option 
       if e.cond == name then
         let r := rec t
         if r.err.isSome then r
+        else if r.sc.isSome then r   -- a processor answered the request: the rest of the request path is skipped (fix F04b)
         else
           let rest := walkEdges rec name es r.sc
           { trace := r.trace ++ rest.trace, sc := rest.sc, err := rest.err }
@@ -79,32 +80,28 @@ def walk (f : Flow) (o : Oracle) (d : Dir) : Nat → String → WalkRes
         { r with trace := ev :: r.trace }
 
 /-- `Stream.executeFlow(flow, apiStream, actions, startFromNode)`; the `enter` event is the
-    `apiStream.SetContext` call that precedes every check. -/
+    `apiStream.SetContext` call that precedes every check.  (After the fixes F04a/F04d: with a
+    short-circuit node the walk continues at that node's FIRST edge whether or not the direction has
+    a root; no edge or an edge to the stream ends the walk.) -/
 def executeFlow (f : Flow) (o : Oracle) (d : Dir) (fuel : Nat) (startFrom : Option String) : WalkRes :=
   let ent := Event.enter f.name d
   let g := f.dir d
   if !g.isDefined then { trace := [ent] } else
-  match g.root with
-  | none => { trace := [ent] }                        -- `start == nil ⇒ return` (before startFromNode is looked at)
-  | some r =>
-    let start : Option String :=
-      match startFrom with
-      | none => some r
-      | some k =>
-        match g.find k with
-        | none => some r                              -- cannot happen: the node was looked up before
-        | some n =>
-          match n.edges with
-          | [] => some r                              -- "Short circuit node has no target node": walk from the root
-          | e :: _ =>
-            match e.target with
-            | .stream _ _ => none                     -- first edge goes to the stream: end of walk
-            | .node t => some t
-    match start with
-    | none => { trace := [ent] }
-    | some k =>
-      let w := walk f o d fuel k
-      { w with trace := ent :: w.trace }
+  let start : Option String :=
+    match startFrom.bind g.find with
+    | none => g.root                                -- no short-circuit (node): walk from the root, if any
+    | some n =>
+      match n.edges with
+      | [] => none                                  -- no connection leaves the answering node: end of walk
+      | e :: _ =>
+        match e.target with
+        | .stream _ _ => none                       -- first edge goes to the stream: end of walk
+        | .node t => some t
+  match start with
+  | none => { trace := [ent] }
+  | some k =>
+    let w := walk f o d fuel k
+    { w with trace := ent :: w.trace }
 
 /-- Run a list of flows one after the other, stopping at the first error (system flows). -/
 def runAll (o : Oracle) (d : Dir) (fuel : Nat) : List Flow → WalkRes
